@@ -175,6 +175,19 @@ func checkCase(c Case) fw.Outcome {
 				return out
 			}
 		}
+		// every list entry a path names is asked for, also when a later ".." leaves it again (it may not exist)
+		for n := range m.named {
+			if !tr.Named[n] {
+				out.Violation = fmt.Sprintf("the paths name the list entry %s, no navigation of the run names it\n%s", n, describe())
+				return out
+			}
+		}
+		for n := range tr.Named {
+			if !m.named[n] {
+				out.Violation = fmt.Sprintf("a navigation of the run names the list entry %s, which no path names\n%s", n, describe())
+				return out
+			}
+		}
 		// value of the expression
 		gs, _ := res.GetLiteralResult()
 		if ws := xp.ToStr(want); gs != ws {
